@@ -2,6 +2,7 @@ import PyYetiVerif.Lemmas.RigidBodyGuyan
 import PyYetiVerif.Model.RigidBodyCheck
 import PyYetiVerif.Props.C06
 import Mathlib.Algebra.BigOperators.Group.Finset.Basic
+import Mathlib.Tactic.NormNum
 /-!
 # C06 (second extension) — `cb.cbcheck` as decision logic; `cbconvert` / `cbreorder` on data recovery matrices
 
@@ -80,13 +81,13 @@ theorem cbcheck_errors (n : Nat) (M K : NMat α) (bseto bref0 : List Nat) (usetN
         ∃ out, cbcheckM n M K bseto bref0 usetN u isCyl isSph uref o twoPi hundred = .ok out) := by
   refine ⟨?_, ?_, ?_⟩
   · intro h
-    unfold cbcheckM
+    unfold cbcheckM cbcheckWith
     simp [h]
   · intro h hr ha
-    unfold cbcheckM
+    unfold cbcheckM cbcheckWith
     simp [h, hr, ha]
   · intro h hor
-    unfold cbcheckM
+    unfold cbcheckM cbcheckWith
     rcases hor with hr | ha
     · simp [h, hr]
     · simp [h, ha]
@@ -114,7 +115,7 @@ theorem cbcheck_returns_def (n : Nat) (M K : NMat α) (bseto bref0 : List Nat) (
       out.printed = emFiltRows out.nq out.percent o.emFilt := by
   have hchk : (!o.reorder && !isAscending bseto) = false := by
     rcases hor with h | h <;> simp [h]
-  unfold cbcheckM
+  unfold cbcheckM cbcheckWith
   simp only [bne_self_eq_false, Bool.false_eq_true, if_false, hchk]
   refine ⟨_, rfl, rfl, rfl, ?_, ?_, rfl, rfl, rfl, rfl, rfl, rfl, rfl, rfl⟩
   · cases o.conv <;> rfl
@@ -135,7 +136,7 @@ theorem cbcheck_option_independence (n : Nat) (M K : NMat α) (bseto bref0 : Lis
         a.percent = b.percent ∧ a.frq = b.frq ∧ a.bref = b.bref ∧ a.brefB = b.brefB
     | .error e, .error e' => e = e'
     | _, _ => False := by
-  unfold cbcheckM
+  unfold cbcheckM cbcheckWith
   by_cases h1 : (usetN != bseto.length) = true
   · simp [h1]
   · by_cases h2 : (!o.reorder && !isAscending bseto) = true
@@ -228,5 +229,26 @@ theorem convert_drm_roundtrip (D : NMat ℝ) (b : List Nat) (lc mc : ℝ) (hl : 
 example : pvList [0, 1, 2, 3] 5 true = [4, 0, 1, 2, 3] := by decide
 
 end drm
+
+/-! ## the unit factors in the source (translated: `Generated/RigidBodyConsts.lean`) -/
+
+section consts
+open PyYetiVerif.Generated.RigidBodyConsts
+
+/-- ★ the string conversions are mutually inverse: the length factors of `'m2e'` and `'e2m'` (`1/0.0254`, `0.0254`)
+exactly, the mass factors (`0.005710147154735817`, `175.12683524637913`) to better than `1e-16` relative - so
+`cbconvert(cbconvert(M, b, 'm2e'), b, 'e2m')` returns `M` up to round-off; and the default `g` of `mk_net_drms` is
+standard gravity `9.80665 m/s²` expressed with the same inch -/
+theorem conv_factors_inverse :
+    ((m2eLenNum : ℚ) / m2eLenDen) * ((e2mLenNum : ℚ) / e2mLenDen) = 1 ∧
+      |((m2eMassNum : ℚ) / m2eMassDen) * ((e2mMassNum : ℚ) / e2mMassDen) - 1| < 1 / 10 ^ 16 ∧
+      ((gNum : ℚ) / gDen) * ((e2mLenNum : ℚ) / e2mLenDen) = 980665 / 100000 := by
+  refine ⟨?_, ?_, ?_⟩
+  · norm_num [m2eLenNum, m2eLenDen, e2mLenNum, e2mLenDen]
+  · rw [abs_lt]
+    constructor <;> norm_num [m2eMassNum, m2eMassDen, e2mMassNum, e2mMassDen]
+  · norm_num [gNum, gDen, e2mLenNum, e2mLenDen]
+
+end consts
 
 end PyYetiVerif.C06
